@@ -301,6 +301,9 @@ def check_keys(ts, cfg, doc):
         nkeys += len(want | set(got))
         for key in want - set(got):
             rc = "rc_split_nonliteral" if key[2] == "nonliteral" and split_nonliteral(ts, cfg, inst, nl, c, key) else None
+            if rc is None and key[1] == cfg["tau"] and cfg["remove_empty_shapes"] and not cfg["all_classes"] \
+                    and key[2] in cfg["targets"] and n_of.get(key[2], 0) == 0:
+                rc = "rc_dead_target_key"     # the value is a requested class without instances: removed as a key too
             fails.append((rc, "class %s lacks key %r although %s of its instances have it (threshold %s)" % (
                 c, key, exp[c][key], thr)))
         for key in set(got) - want:
